@@ -39,6 +39,15 @@ check("C14", "TLA+ list model (Curves/CurvesAlgo, two LASFile objects) checked b
       "transition is replayed on real objects with keys/values/items/index/data/int/mnemonic views projected after "
       "every step and compared by TLC with the list model, and the other LASFile must stay unchanged (frame).", TRUSTED,
       "DESIGN.md 4 C14")
+check("C17", "TLA+ copy model on the SectionAlgo state graph (CopyKeepsNames invariant, TLC); every reachable section state "
+      "built on a real LASFile and copied by pickle 0..5 / deepcopy as LASFile, section and item; copy/mutate traces validated "
+      "by TLC against Trace_Copy",
+      "Model checking + trace validation: TLC checks that the modelled copy functions keep the session names on every "
+      "reachable section (it produces the stale-suffix counterexample for copy-by-append in one second), and every such "
+      "section, the example corpus and generated files with text/int/float curves are copied for real; Trace_Copy demands "
+      "component-wise equality (names, session and original mnemonics, fields with value types, arrays, dtypes, index unit, "
+      "all other attributes, byte-identical write()) and independence under four kinds of mutation of the copy.", TRUSTED,
+      "DESIGN.md 4 C17")
 
 
 def main():
